@@ -185,7 +185,8 @@ Proof.
   - apply JD_err_r.
   - eapply hoare_bind; [hf|]. intros e.
     destruct e as [[| | | | |n| |]|]; try apply JD_err_r.
-    + eapply hoare_bind; [hf|]. intros st.
+    + destruct (has_slash n); [apply JD_err_r|].
+      eapply hoare_bind; [hf|]. intros st.
       destruct st as [[| | |isdir size ct at_ mt| | | |]|]; try apply JD_err_r.
       * apply IH.
       * destruct (hidden n); [apply IH|].
